@@ -54,6 +54,8 @@ MUTANTS = [
     ("c12_cost_reduced_in_lambda_tsan", "C12", "tsan", O, "ws.segment_costs[i] = local_acc_cost;", "ws.segment_costs[i] = 0.0; cost += local_acc_cost;"),
     ("c12_no_double_check", "C12", "plain", O, "std::lock_guard<std::mutex> lock(layout_mutex_);\n            if (layout_dirty_.load(std::memory_order_relaxed))\n            {\n                rebuildLayoutCache();\n            }", "rebuildLayoutCache();"),
     ("c12_no_double_check_tsan", "C12", "tsan", O, "std::lock_guard<std::mutex> lock(layout_mutex_);\n            if (layout_dirty_.load(std::memory_order_relaxed))\n            {\n                rebuildLayoutCache();\n            }", "rebuildLayoutCache();"),
+    ("c12_relock_deadlock", "C12", "plain", O, "void rebuildLayoutCache() const\n        {\n            spatial_layout_.clear();", "void rebuildLayoutCache() const\n        {\n            std::lock_guard<std::mutex> relock(layout_mutex_);\n            spatial_layout_.clear();"),
+    ("c12_flag_cleared_before_rebuild", "C12", "plain", O, "if (layout_dirty_.load(std::memory_order_relaxed))\n            {\n                rebuildLayoutCache();", "if (layout_dirty_.exchange(false))\n            {\n                rebuildLayoutCache();"),
     # ---- C15
     ("c15_copy_keeps_time_map_pointer", "C15", "plain", O, "active_time_map_ = (other.active_time_map_ == &other.default_time_map_)\n                              ? &default_time_map_\n                              : other.active_time_map_;", "active_time_map_ = other.active_time_map_;"),
     ("c15_copy_keeps_time_map_pointer_asan", "C15", "asan", O, "active_time_map_ = (other.active_time_map_ == &other.default_time_map_)\n                              ? &default_time_map_\n                              : other.active_time_map_;", "active_time_map_ = other.active_time_map_;"),
